@@ -410,6 +410,16 @@ def validate_path(cfg, out, paths, want_vjp, want_jvp):
     return None
 
 
+def _kind_pad(a, b):
+    """an all-constant output (e.g. triu above the last diagonal) has integer-zero leaves in the object-dtype run and
+    complex zeros in the float64 run: compare such real leaves with (re, 0) pairs"""
+    if len(b) == 2 * len(a) and len(a):
+        return [v for x in a for v in (x, 0.0)], b
+    if len(a) == 2 * len(b) and len(b):
+        return a, [v for x in b for v in (x, 0.0)]
+    return a, b
+
+
 def _validate(cfg, out, p, env, want_vjp, want_jvp):
     res = p.res
     msgs = []
@@ -418,14 +428,14 @@ def _validate(cfg, out, p, env, want_vjp, want_jvp):
             warnings.simplefilter("ignore")
             yf = flat_float(getattr(cfg, "oracle", cfg.call)(onp, *cfg.float_args(env)))
         ys = floats_of(res["y"], env, 0)
-        if not close(ys, yf, 1e-6, 1e-8):
+        if not close(*_kind_pad(ys, yf), 1e-6, 1e-8):
             msgs.append("primal: symbolic %s vs float64 %s" % (ys[:4], yf[:4]))
         dys = floats_of(res["y"], env, 1)
         try:
             fd = float_dir_deriv(cfg, env)
         except NonSmooth:
             fd = None
-        if fd is not None and not close(dys, fd, 2e-4, 1e-6):
+        if fd is not None and not close(*_kind_pad(dys, fd), 2e-4, 1e-6):
             msgs.append("oracle derivative: symbolic %s vs finite difference %s" % (dys[:4], fd[:4]))
         if want_vjp and "got" in res:
             yv, g, got = float_vjp(cfg, env)
@@ -1316,7 +1326,17 @@ def _freeze(a):
 
 
 def _ids(a):
-    return [id(e) for e in leaves(a)]
+    """identity fingerprint of a value: the ids of the entry objects of object-dtype arrays (an in-place write
+    replaces an entry), the bytes of numeric arrays, ids of scalars"""
+    if isinstance(a, dict):
+        return [(k, _ids(a[k])) for k in a]
+    if isinstance(a, (tuple, list)):
+        return [_ids(x) for x in a]
+    if isinstance(a, onp.ndarray):
+        if a.dtype == object:
+            return [id(e) for e in a.ravel(order="K").tolist()] if a.ndim else [id(a.item())]
+        return a.tobytes()
+    return id(a)
 
 
 def check_reuse(cfg, tier="quick"):
@@ -1476,11 +1496,14 @@ def check_checkpoint(cfg, tier="quick"):
         f = lambda x: fk(x, 2.0, scale=1.5, shift=0.25)
         cf = lambda x: cfk(x, 2.0, scale=1.5, shift=0.25)
         res = {"tag": "ok", "args": plain}
+        plain_ok = False
         try:
             vjp, yv = core.make_vjp(f, plain[k])
-            vjpc, yc = core.make_vjp(cf, plain[k])
             g = sym_like(yv, "g")
-            res.update(y=yv, yc=yc, r=vjp(g), rc=vjpc(g))
+            r_plain = vjp(g)
+            plain_ok = True  # f itself is differentiable here: checkpoint(f) must be too
+            vjpc, yc = core.make_vjp(cf, plain[k])
+            res.update(y=yv, yc=yc, r=r_plain, rc=vjpc(g))
             # second order: vjp of (x -> <vjp_f(x)(g), u>) for both
             u = sym_like(plain[k], "u")
 
@@ -1494,10 +1517,18 @@ def check_checkpoint(cfg, tier="quick"):
 
             res["h"] = second(f)
             res["hc"] = second(cf)
+            # a constant float ARRAY (of another shape) in a positional slot BEFORE the differentiated argument: the
+            # recomputed VJP must hand back the cotangent of the traced slot, not of the first slot
+            w0 = onp.array([[0.5, -1.0, 0.25], [1.5, 0.75, -0.5]])
+            fw = lambda w, x, m, scale=1.0: fk(x, m, scale=scale) * (1.0 + anp.sum(w * w))
+            cfw = autograd.checkpoint(fw)
+            vw, yw = core.make_vjp(lambda x: fw(w0, x, 2.0, scale=1.5), plain[k])
+            vwc, ywc = core.make_vjp(lambda x: cfw(w0, x, 2.0, scale=1.5), plain[k])
+            res.update(yw=yw, ywc=ywc, rw=vw(g), rwc=vwc(g))
         except (Unsupported, Infeasible, PathLimit):
             raise
         except Exception as e:
-            return {"tag": "raises", "exc": e, "args": plain}
+            return {"tag": "raises", "exc": e, "args": plain, "plain_ok": plain_ok}
         return res
 
     paths = explore_cfg(cfg, out, body, opts)
@@ -1512,6 +1543,8 @@ def check_checkpoint(cfg, tier="quick"):
         res = p.res
         if res["tag"] == "raises":
             out.detail = exc_sig(res["exc"])
+            if res.get("plain_ok") and "ck_raises" not in out.extra:
+                out.extra["ck_raises"] = out.detail
             continue
         r, m = witness(p, out, opts)
         if r == "unsat":
@@ -1519,7 +1552,8 @@ def check_checkpoint(cfg, tier="quick"):
             continue
         nok += 1
         bad = None
-        for a, b, nm in ((res["y"], res["yc"], "value"), (res["r"], res["rc"], "first derivative"), (res["h"], res["hc"], "second derivative")):
+        for a, b, nm in ((res["y"], res["yc"], "value"), (res["r"], res["rc"], "first derivative"), (res["h"], res["hc"], "second derivative"),
+                         (res["yw"], res["ywc"], "value (constant array in an earlier slot)"), (res["rw"], res["rwc"], "first derivative (constant array in an earlier positional slot)")):
             if structure(a) != structure(b):
                 bad = nm + " structure"
                 break
@@ -1536,6 +1570,39 @@ def check_checkpoint(cfg, tier="quick"):
             out.status, out.detail = "violation", "checkpoint(f) differs from f in its %s" % bad
             out.cex = {"env": {k_: float(v_) for k_, v_ in (model or {}).items() if "!" not in k_} if bad and 'model' in dir() and model else {}, "mode": "checkpoint"}
             break
+    if out.status is None and out.extra.get("ck_raises"):
+        # f is differentiable but checkpoint(f) raised: confirm on float64 with the real arrays
+        def float_confirms():
+            env = _Default({}, random.Random(SEED + 11))
+            fa = cfg.float_args(env)
+            fk = lambda x, m, scale=1.0, shift=0.0: cfg.call(anp, *subst(fa, k, x)) * (m * scale) + shift
+            w0 = onp.array([[0.5, -1.0, 0.25], [1.5, 0.75, -0.5]])
+            fw = lambda w, x, m, scale=1.0: fk(x, m, scale=scale) * (1.0 + anp.sum(w * w))
+            try:
+                with warnings.catch_warnings():
+                    warnings.simplefilter("ignore")
+                    for fun, extra in ((fk, (2.0,)), (fw, None)):
+                        call = (lambda x, _f=fun: _f(x, 2.0, scale=1.5)) if extra else (lambda x, _f=fun: _f(w0, x, 2.0, scale=1.5))
+                        ck = autograd.checkpoint(fun)
+                        callc = (lambda x, _f=ck: _f(x, 2.0, scale=1.5)) if extra else (lambda x, _f=ck: _f(w0, x, 2.0, scale=1.5))
+                        v, y = core.make_vjp(call, fa[k])
+                        gg = onp.ones(onp.shape(y)) if onp.shape(y) else 1.0
+                        r = v(gg)
+                        try:
+                            vc, yc = core.make_vjp(callc, fa[k])
+                            rc = vc(gg)
+                        except Exception as e:
+                            return "checkpoint(f) raises (%s) where f itself is differentiable" % exc_sig(e)
+                        if _shape_struct(r) != _shape_struct(rc) or not close(flat_float(r), flat_float(rc), 1e-9, 1e-12):
+                            return "checkpoint(f) differs from f in its first derivative on float64 (%s): %s vs %s" % ("extra positional" if extra else "constant array in an earlier positional slot", _shape_struct(rc), _shape_struct(r))
+            except Exception:
+                return None
+            return None
+
+        sig = float_confirms()
+        if sig:
+            out.status, out.detail = "violation", "[symbolic run of checkpoint(f) raised %s; float64 comparison] %s" % (out.extra["ck_raises"], sig)
+            out.cex = {"env": {}, "mode": "checkpoint"}
     if out.status is None:
         out.status = "holds" if nok else "raises"
         if nok:
@@ -1777,6 +1844,37 @@ def check_operators(case, tier="quick"):
         attempt("extra positional arguments are forwarded", lambda: autograd.hessian_vector_product(lambda x_, m, k=1.0: sc(x_) * m * k)(x, 2.0, v, k=3.0), 6.0 * T(Hs, v, nin))
         attempt("tuple argnum gives a tuple", lambda: autograd.grad(lambda a, xx: sc(a) + 2.0 * sc(xx), (0, 1))(x, x)[1], 2.0 * gJ)
         attempt("list argnum gives a tuple", lambda: autograd.grad(lambda a, xx: sc(a) + 2.0 * sc(xx), [1, 0])(x, x)[1], 1.0 * gJ)
+        # every n-ary operator with argnum=1 where the function ALSO depends on argument 0 (an array of another
+        # shape): differentiating w.r.t. the wrong position at any level gives a mixed derivative or a wrong shape
+        a0 = onp.array([0.5, -1.5])
+        m = 3.5  # 1 + sum(a0**2)
+        sc2 = lambda a, xx, k=1.0: sc(xx) * (1.0 + anp.sum(a * a)) * k
+        F2b = lambda a, xx, k=1.0: F(xx) * (1.0 + anp.sum(a * a)) * k
+        DO = autograd.differential_operators
+        attempt("argnum=1: grad", lambda: autograd.grad(sc2, 1)(a0, x), m * gJ)
+        attempt("argnum=1: value_and_grad", lambda: autograd.value_and_grad(sc2, 1)(a0, x)[1], m * gJ)
+        attempt("argnum=1: grad_and_aux", lambda: autograd.grad_and_aux(lambda a, xx: (sc2(a, xx), 1.0), 1)(a0, x)[0], m * gJ)
+        attempt("argnum=1: elementwise_grad", lambda: autograd.elementwise_grad(F2b, 1)(a0, x), m * (onp.sum(J, axis=tuple(range(no))) if no else J))
+        attempt("argnum=1: jacobian", lambda: autograd.jacobian(F2b, 1)(a0, x), m * Jx)
+        attempt("argnum=1: hessian", lambda: autograd.hessian(sc2, 1)(a0, x), m * Hs)
+        attempt("argnum=1: hessian_tensor_product", lambda: autograd.hessian_tensor_product(sc2, 1)(a0, x, v), m * T(Hs, v, nin))
+        attempt("argnum=1: hessian_vector_product (keyword argnum, kwargs)", lambda: autograd.hessian_vector_product(sc2, argnum=1)(a0, x, v, k=2.0), 2.0 * m * T(Hs, v, nin))
+        attempt("argnum=1: make_hvp", lambda: autograd.make_hvp(sc2, 1)(a0, x)[0](v), m * T(Hs, v, nin))
+        attempt("argnum=1: tensor_jacobian_product", lambda: autograd.tensor_jacobian_product(F2b, 1)(a0, x, g), m * T(g, J, no))
+        attempt("argnum=1: make_vjp", lambda: autograd.make_vjp(F2b, 1)(a0, x)[0](g), m * T(g, J, no))
+        attempt("argnum=1: make_jvp", lambda: autograd.make_jvp(F2b, 1)(a0, x)(v)[1], m * T(J, v, nin))
+        attempt("argnum=1: make_jvp_reversemode", lambda: DO.make_jvp_reversemode(F2b, 1)(a0, x)(v), m * T(J, v, nin))
+        if no >= 1:
+            attempt("f_argnum=1: make_ggnvp", lambda: autograd.make_ggnvp(F2b, lambda y_: 0.5 * anp.sum(y_ ** 2), 1)(a0, x)(v), m * m * T(T(J, v, nin), J, no))
+        if scalar_in or ish == ():
+            attempt("argnum=1: deriv", lambda: autograd.deriv(F2b, 1)(a0, x), m * J)
+        attempt("argnum=1: forward-over-reverse", lambda: autograd.make_jvp(autograd.grad(sc2, 1), 1)(a0, x)(v)[1], m * T(Hs, v, nin))
+        # values handed back by an operator (function value, aux) stay differentiable for an ENCLOSING differentiation
+        attempt("nested: aux of grad_and_aux is differentiable outside", lambda: autograd.grad(lambda x_: anp.sum(autograd.grad_and_aux(lambda z: (sc(z), F(z)))(x_)[1] * g))(x), gJ)
+        attempt("nested: value of value_and_grad is differentiable outside", lambda: autograd.grad(lambda x_: autograd.value_and_grad(sc)(x_)[0])(x), gJ)
+        attempt("nested: value of make_vjp is differentiable outside", lambda: autograd.grad(lambda x_: anp.sum(autograd.make_vjp(F)(x_)[1] * g))(x), gJ)
+        attempt("nested: value of make_jvp is differentiable outside", lambda: autograd.grad(lambda x_: anp.sum(autograd.make_jvp(F)(x_)(v)[0] * g))(x), gJ)
+        attempt("nested: jvp of make_jvp under forward mode", lambda: autograd.make_jvp(lambda x_: anp.sum(autograd.grad_and_aux(lambda z: (sc(z), F(z)))(x_)[1] * g))(x)(v)[1], T(gJ, v, nin))
         return {"tag": "ok", "eq": eq, "args": [x]}
 
     paths = explore_cfg(cfg, out, body, opts)
@@ -1820,7 +1918,7 @@ def check_operators(case, tier="quick"):
                         ffails.append(name)
         except Exception as e:
             ffails.append("float64 replay raised %s" % exc_sig(e))
-        confirmed = [f for f in fails if f.split(":")[0] in ffails]
+        confirmed = [f for f in fails if any(f.startswith(n_ + ": ") for n_ in ffails)]
         if confirmed:
             out.status, out.detail = "violation", "; ".join(confirmed[:6])
             out.cex = {"env": {}, "mode": "operators", "case": [list(insh) if insh != "s" else "s", list(outsh)]}
@@ -2615,6 +2713,18 @@ def _numeric(v):
         return False
 
 
+def _scribble(r):
+    """add 7 in place to every array leaf of a result (what a caller's `r += ...` does)"""
+    if isinstance(r, dict):
+        for v in r.values():
+            _scribble(v)
+    elif isinstance(r, (tuple, list)):
+        for v in r:
+            _scribble(v)
+    elif isinstance(r, onp.ndarray) and r.flags.writeable:
+        r[...] = r + 7
+
+
 def check_zero(case, tier="quick"):
     """every operator returns an exact structural zero (never None / error) when the output does not depend on the argument"""
     import autograd
@@ -2650,6 +2760,17 @@ def check_zero(case, tier="quick"):
 
         attempt("make_vjp", lambda: autograd.make_vjp(f)(x)[0](y if not scalar_out else 1.0), x)
         attempt("make_jvp", lambda: autograd.make_jvp(f)(x)(x)[1], y)
+
+        def scribbled_reuse(vjpf, ct):
+            # the caller owns what a VJP function returns: modifying it in place must not change the next call
+            _scribble(vjpf(ct))
+            return vjpf(ct)
+
+        attempt("make_vjp called again after the caller modified the first result in place",
+                lambda: scribbled_reuse(autograd.make_vjp(f)(x)[0], y if not scalar_out else 1.0), x)
+        if scalar_out and array_in:
+            attempt("make_hvp called again after the caller modified the first result in place",
+                    lambda: scribbled_reuse(autograd.make_hvp(f)(x)[0], x), x)
         attempt("elementwise_grad", lambda: autograd.elementwise_grad(f)(x), x)
         if scalar_out:
             attempt("grad", lambda: autograd.grad(f)(x), x)
